@@ -131,12 +131,12 @@ PROPS = {
             ('reqrep', r'^ReqSocket::recv$', S, None),
             ('reqrep', r'^RepSocket::send$', A, None),
             ('reqrep', r'^RepSocket::recv$', {'post', 'inv-entry', 'inv-end'}, None),
-            ('reqrep', r'^ReqSocketBackend::|^RepSocketBackend::peer_connected$', A, None),
+            ('reqrep', r'^ReqSocketBackend::|^RepSocketBackend::peer_(connected|disconnected)$', A, None),
             ('reqrep', r'^tmpl::lemma_first_live', A, None),
         ],
         'kani': {},
         'assumptions': [
-            'sequential scope: Arc<T> as Box<T>, interior mutability as &mut (D7); scc::HashMap really is a map; RepSocketBackend::peer_disconnected is a stub (its real body locks a parking_lot mutex to notify the monitor)',
+            'sequential scope: Arc<T> as Box<T>, interior mutability as &mut (D7); scc::HashMap really is a map; the monitor channel is a stand-in (try_send result ignored)',
         ],
         'not_covered': ['interleavings of concurrent clients as such: the contracts say each call pairs request and reply by peer identity whatever other calls did'],
     },
@@ -154,7 +154,7 @@ PROPS = {
         ],
         'kani': {},
         'assumptions': [
-            'A-REGION-3/4: `match &self.fair_queue_inner { .. inner.lock().insert/remove(..) .. }` in GenericSocketBackend::peer_connected / peer_disconnected is replaced by stubs (parking_lot mutex behind a shared reference)',
+            '`match &self.fair_queue_inner {..}` in GenericSocketBackend::peer_connected / peer_disconnected is verified with the shared borrow turned into `&mut` (D7 `mutref`, former assumed regions A-REGION-3/4): the read half is queued under, and removed by, the same identity',
             'sequential scope (Arc as Box, D7); the identity under which a peer is registered is the one util::peer_connected passes (C04)',
         ],
         'not_covered': ['which OS connection an identity denotes when two peers announce the same identity (upsert replaces)', 'RouterSocket::send with fewer than 2 frames (assert! in the code; the premise of the property itself)'],
@@ -181,7 +181,7 @@ PROPS = {
         'units': ['reqrep', 'routing', 'fairqueue'],
         'scope': [
             # the queue every fair-queue based recv awaits: all state lives in the queue, Pending registers the current waker
-            ('fairqueue', r'^FairQueue::poll_next$|^QueueInner::(insert|remove)$', A, None),
+            ('fairqueue', r'^FairQueue::poll_next$|^QueueInner::(insert|remove)$|^StreamWaker::wake_by_ref$', A, None),
             ('reqrep', r'^ReqSocket::recv$', {'assert'}, None),
             ('reqrep', r'^RepSocket::recv$', {'assert', 'inv-entry', 'inv-end'}, None),
             ('routing', r'^(RouterSocket|DealerSocket|PullSocket|SubSocket|XPubSocket)::recv$', {'assert', 'inv-entry', 'inv-end'}, None),
